@@ -701,6 +701,9 @@ class Predicate(metaclass=abc.ABCMeta):
         def __iter__(self) -> typing.Iterator['dsl.Table']:
             return iter(self._items)
 
+        def __reduce__(self):
+            return self.__class__, tuple(self._items.values())  # the mapping proxy itself can't be pickled
+
     kind = kindmod.Boolean()
 
     @property
